@@ -235,6 +235,49 @@ pub fn run_c05(opts: &Opts, out: &mut Emitter) {
             });
         }
     }
+    // the fee reaches every place that asks for it, and as the very same number: the real apply_fees on every
+    // template shape and on hand-built queries (input / collateral, single / multi, the fee alone or inside a sum)
+    {
+        let mut shapes: Vec<tir::Tx> = vec![];
+        for kind in 0..5 {
+            for outputs in 0..2 {
+                if let Some(tx) = lower(&template(kind, outputs)) {
+                    shapes.push(tx);
+                }
+            }
+        }
+        for coll in [false, true] {
+            for many in [false, true] {
+                for sum in [false, true] {
+                    let fees = crate::tirjson::fees_param();
+                    let min = if sum {
+                        tir::Expression::EvalBuiltIn(Box::new(tir::BuiltInOp::Add(fees, crate::tirjson::ada(5))))
+                    } else {
+                        fees
+                    };
+                    let q = tir::InputQuery { address: tir::Expression::Address(ADDR_A.to_vec()), min_amount: min, r#ref: tir::Expression::None, many, collateral: coll };
+                    let mut t = crate::tirjson::empty_tx();
+                    t.fees = crate::tirjson::fees_param();
+                    let name = if coll { "collateral" } else { "in0" };
+                    let e = crate::tirjson::input_param(name, q);
+                    if coll {
+                        t.collateral.push(tir::Collateral { utxos: e });
+                    } else {
+                        t.inputs.push(tir::Input { name: name.into(), utxos: e, redeemer: tir::Expression::None });
+                    }
+                    shapes.push(t);
+                }
+            }
+        }
+        for tx in shapes.iter() {
+            for fee in [0u64, 170_000, 200_001, 1 << 32] {
+                out.case("apply-fees", || {
+                    let after = crate::stages::outcome_tx(guarded(|| tx3_tir::reduce::apply_fees(tx.clone(), fee))).0;
+                    json!({"probe": "apply-fees", "tx": crate::tirjson::tx_json(tx), "fee": fee, "obs": {"after": after}})
+                });
+            }
+        }
+    }
     for k in 0..opts.n {
         let kind = k % 5;
         let t = template(kind, (r.below(3)) as usize);
